@@ -22,7 +22,7 @@ theorem viewSpec_finished {p : Program} {V : Nat → Option FileView} {j : Nat} 
     exact view_typedef_exists htd
 
 theorem resolveAST_binds {p : Program} {views : Nat → Option FileView} {gfuel i : Nat} {f : File} {rf : RFile}
-    (hsane : p.saneNames = true) (hf : p[i]? = some f) (hv : ViewsGood p views) (hc : ViewsClosed p views)
+    (hf : p[i]? = some f) (hv : ViewsGood p views) (hc : ViewsClosed p views)
     (h : resolveAST views gfuel i f = .ok rf) (hgood : Good p i f rf)
     {s : Slot} {cv : ConstVal} (hs : SlotConst f s cv) :
     ∃ bs, rf.bindsAt s = some bs ∧ bs.length = cv.idents.length ∧
@@ -97,7 +97,7 @@ theorem resolveAST_binds {p : Program} {views : Nat → Option FileView} {gfuel 
       rw [hvv]
       exact viewSpec_finished hg' hgood' (fun inc hinc => hsome inc (hcl inc hinc))
   have C : CandCtx p i f ce :=
-    ⟨hsane, by rw [← hce]; rfl, hg, hall_views, ⟨_, by rw [hviews, if_pos rfl]⟩⟩
+    ⟨by rw [← hce]; rfl, hg, hall_views, ⟨_, by rw [hviews, if_pos rfl]⟩⟩
   obtain ⟨b, q1, q2, _⟩ := hall.bind_at (events_cv_nodup f hnd) s cv ((mem_events_cv f s cv).mpr hs)
   obtain ⟨as, hidx, hb⟩ := resolveConst_ok cv b q1
   refine ⟨b.val, by rw [hrf]; exact q2, by rw [hb]; simp [combine, hidx.length], ?_⟩
